@@ -220,7 +220,7 @@ fn quad_prop(inp: &[u8; 36], fwd: bool, part: usize) -> Option<bool> {
     }
 }
 
-//@ harness name=c6_leaf_quad_fwd_a prop=C08,C01,C20 tier=quick bits=288 est=180 desc="L: forward_quad(beta, m, r) vs RFC 2612 Q, equations C' = C ^ f1(D, Km0, Kr0) and B' = B ^ f2(C', Km1, Kr1) (f1/f2 with S1..S4), every 128-bit beta, every masking key m, every rotation key r (all u8 values)"
+//@ harness name=c6_leaf_quad_fwd_a prop=C08,C01,C20 tier=quick bits=288 est=115 desc="L: forward_quad(beta, m, r) vs RFC 2612 Q, equations C' = C ^ f1(D, Km0, Kr0) and B' = B ^ f2(C', Km1, Kr1) (f1/f2 with S1..S4), every 128-bit beta, every masking key m, every rotation key r (all u8 values)"
 verif_harness! {
     name: c6_leaf_quad_fwd_a,
     bytes: 36,
@@ -228,7 +228,7 @@ verif_harness! {
     prop: |inp| { quad_prop(inp, true, 0) }
 }
 
-//@ harness name=c6_leaf_quad_fwd_b prop=C08,C01,C20 tier=quick bits=288 est=185 desc="L: forward_quad vs RFC 2612 Q, equations A' = A ^ f3(B', Km2, Kr2) and D' = D ^ f1(A', Km3, Kr3), every beta, m, r; with _a: forward_quad == Q"
+//@ harness name=c6_leaf_quad_fwd_b prop=C08,C01,C20 tier=quick bits=288 est=195 desc="L: forward_quad vs RFC 2612 Q, equations A' = A ^ f3(B', Km2, Kr2) and D' = D ^ f1(A', Km3, Kr3), every beta, m, r; with _a: forward_quad == Q"
 verif_harness! {
     name: c6_leaf_quad_fwd_b,
     bytes: 36,
@@ -236,7 +236,7 @@ verif_harness! {
     prop: |inp| { quad_prop(inp, true, 1) }
 }
 
-//@ harness name=c6_leaf_quad_rev_a prop=C08,C01,C20 tier=quick bits=288 est=180 desc="L: reverse_quad(beta, m, r) vs RFC 2612 QBAR, equations D' = D ^ f1(A, Km3, Kr3) and A' = A ^ f3(B, Km2, Kr2), every beta, m, r"
+//@ harness name=c6_leaf_quad_rev_a prop=C08,C01,C20 tier=quick bits=288 est=165 desc="L: reverse_quad(beta, m, r) vs RFC 2612 QBAR, equations D' = D ^ f1(A, Km3, Kr3) and A' = A ^ f3(B, Km2, Kr2), every beta, m, r"
 verif_harness! {
     name: c6_leaf_quad_rev_a,
     bytes: 36,
@@ -244,7 +244,7 @@ verif_harness! {
     prop: |inp| { quad_prop(inp, false, 0) }
 }
 
-//@ harness name=c6_leaf_quad_rev_b prop=C08,C01,C20 tier=quick bits=288 est=120 desc="L: reverse_quad vs RFC 2612 QBAR, equations B' = B ^ f2(C, Km1, Kr1) and C' = C ^ f1(D', Km0, Kr0), every beta, m, r; with _a: reverse_quad == QBAR"
+//@ harness name=c6_leaf_quad_rev_b prop=C08,C01,C20 tier=quick bits=288 est=150 desc="L: reverse_quad vs RFC 2612 QBAR, equations B' = B ^ f2(C, Km1, Kr1) and C' = C ^ f1(D', Km0, Kr0), every beta, m, r; with _a: reverse_quad == QBAR"
 verif_harness! {
     name: c6_leaf_quad_rev_b,
     bytes: 36,
@@ -361,7 +361,7 @@ verif_harness! {
     prop: |inp| { oct_prop(inp, 7) }
 }
 
-//@ harness name=c6_key_schedule prop=C08,C20 tier=quick bits=256 stub=1 est=320 need=7 desc="W: Cast6::key_schedule(256-bit key) on a zeroed state, every key: masking/rotate == RFC 2612 key schedule (24 octaves, Tm/Tr generated from Cm, Mm, Cr, Mr -- checks the TM/TR tables; Kr = 5 LSBs of A,C,E,G; Km = H,F,D,B; big-endian words); forward_octave uninterpreted (shared)"
+//@ harness name=c6_key_schedule prop=C08,C20 tier=quick bits=256 stub=1 est=255 need=7 desc="W: Cast6::key_schedule(256-bit key) on a zeroed state, every key: masking/rotate == RFC 2612 key schedule (24 octaves, Tm/Tr generated from Cm, Mm, Cr, Mr -- checks the TM/TR tables; Kr = 5 LSBs of A,C,E,G; Km = H,F,D,B; big-endian words); forward_octave uninterpreted (shared)"
 verif_harness! {
     name: c6_key_schedule,
     bytes: 32,
@@ -484,7 +484,7 @@ fn arb_state(inp: &[u8; 256]) -> (Cast6, [[u32; 4]; 12], [[u8; 4]; 12], [u8; 16]
     (Cast6 { masking: km, rotate: kr }, km, kr, take(inp, 240))
 }
 
-//@ harness name=c6_wire_enc prop=C08,C20 tier=quick bits=2048 stub=1 est=30 desc="W: encrypt_block on an arbitrary (masking, rotate) state (superset of all keys), every block == RFC 2612: Q_0..Q_5 then QBAR_6..QBAR_11, big-endian words; quads uninterpreted (shared)"
+//@ harness name=c6_wire_enc prop=C08,C20 tier=quick bits=2048 stub=1 est=25 desc="W: encrypt_block on an arbitrary (masking, rotate) state (superset of all keys), every block == RFC 2612: Q_0..Q_5 then QBAR_6..QBAR_11, big-endian words; quads uninterpreted (shared)"
 verif_harness! {
     name: c6_wire_enc,
     bytes: 256,
@@ -498,7 +498,7 @@ verif_harness! {
     }
 }
 
-//@ harness name=c6_wire_dec prop=C08,C20 tier=quick bits=2048 stub=1 est=20 desc="W: decrypt_block on an arbitrary (masking, rotate) state, every block == RFC 2612 decryption: Q_11..Q_6 then QBAR_5..QBAR_0; quads uninterpreted (shared)"
+//@ harness name=c6_wire_dec prop=C08,C20 tier=quick bits=2048 stub=1 est=25 desc="W: decrypt_block on an arbitrary (masking, rotate) state, every block == RFC 2612 decryption: Q_11..Q_6 then QBAR_5..QBAR_0; quads uninterpreted (shared)"
 verif_harness! {
     name: c6_wire_dec,
     bytes: 256,
@@ -512,7 +512,7 @@ verif_harness! {
     }
 }
 
-//@ harness name=c6_roundtrip_ed prop=C01 tier=quick bits=2048 stub=1 est=25 desc="W: decrypt(encrypt(b)) == b on an arbitrary (masking, rotate) state (superset of all keys of the five lengths), every block; forward_quad / reverse_quad are uninterpreted keyed bijections, mutually inverse per (m, r) (leaf lemma c6_leaf_quad_inv)"
+//@ harness name=c6_roundtrip_ed prop=C01 tier=quick bits=2048 stub=1 est=35 desc="W: decrypt(encrypt(b)) == b on an arbitrary (masking, rotate) state (superset of all keys of the five lengths), every block; forward_quad / reverse_quad are uninterpreted keyed bijections, mutually inverse per (m, r) (leaf lemma c6_leaf_quad_inv)"
 verif_harness! {
     name: c6_roundtrip_ed,
     bytes: 256,
@@ -527,7 +527,7 @@ verif_harness! {
     }
 }
 
-//@ harness name=c6_roundtrip_de prop=C01 tier=quick bits=2048 stub=1 est=25 desc="W: encrypt(decrypt(b)) == b on an arbitrary (masking, rotate) state, every block; quads as uninterpreted keyed bijections"
+//@ harness name=c6_roundtrip_de prop=C01 tier=quick bits=2048 stub=1 est=35 desc="W: encrypt(decrypt(b)) == b on an arbitrary (masking, rotate) state, every block; quads as uninterpreted keyed bijections"
 verif_harness! {
     name: c6_roundtrip_de,
     bytes: 256,
